@@ -363,27 +363,54 @@ func (m *minimiser) minimise(s []workerlib.ExplicitRun) []workerlib.ExplicitRun 
 	over := func() bool { return time.Since(m.start) > m.limit }
 	for round := 0; changed && round < 6 && !over(); round++ {
 		changed = false
-		// 1. drop runs (keep the last one: it is where the violation showed)
-		for len(cur) > 1 {
+		// 1. drop runs (keep the last one: it is where the violation showed): the
+		// last run alone, the second half, then ddmin over the runs before the last
+		if len(cur) > 1 && !over() {
 			var cands [][]workerlib.ExplicitRun
 			cands = append(cands, cloneSession(cur[len(cur)-1:]))
 			if len(cur) > 2 {
 				cands = append(cands, cloneSession(cur[len(cur)/2:]))
 			}
-			for i := 0; i < len(cur)-1 && len(cands) < 24; i++ {
-				c := cloneSession(cur)
-				cands = append(cands, append(c[:i:i], c[i+1:]...))
+			if k := m.tryAll(cands); k >= 0 {
+				cur = cands[k]
+				changed = true
 			}
-			k := m.tryAll(cands)
-			if k < 0 {
+		}
+		gran := 2
+		for len(cur) > 1 && !over() {
+			n := len(cur) - 1
+			if gran > n {
+				gran = n
+			}
+			per := (n + gran - 1) / gran
+			var cands [][]workerlib.ExplicitRun
+			for a := 0; a < n && len(cands) < 16; a += per {
+				b := a + per
+				if b > n {
+					b = n
+				}
+				c := cloneSession(cur)
+				cands = append(cands, append(c[:a:a], c[b:]...))
+			}
+			if k := m.tryAll(cands); k >= 0 {
+				cur = cands[k]
+				changed = true
+				if gran > 2 {
+					gran--
+				}
+				continue
+			}
+			if per <= 1 {
 				break
 			}
-			cur = cands[k]
-			changed = true
+			gran *= 2
 		}
 		// 2. drop tasks
 		for ri := range cur {
-			for again := true; again; {
+			if over() {
+				break
+			}
+			for again := true; again && !over(); {
 				again = false
 				var cands [][]workerlib.ExplicitRun
 				for ti := range cur[ri].Tasks {
@@ -402,9 +429,12 @@ func (m *minimiser) minimise(s []workerlib.ExplicitRun) []workerlib.ExplicitRun 
 		}
 		// 3. drop calls: ddmin over each task's call list (chunks first, then single calls)
 		for ri := range cur {
+			if over() {
+				break
+			}
 			for ti := 0; ti < len(cur[ri].Tasks); ti++ {
 				gran := 2
-				for len(cur[ri].Tasks[ti]) > 1 {
+				for len(cur[ri].Tasks[ti]) > 1 && !over() {
 					n := len(cur[ri].Tasks[ti])
 					if gran > n {
 						gran = n
@@ -441,10 +471,13 @@ func (m *minimiser) minimise(s []workerlib.ExplicitRun) []workerlib.ExplicitRun 
 		}
 		// 4. fewer preemptions: no schedule at all (pure sequential), then drop segments one by one
 		for ri := range cur {
+			if over() {
+				break
+			}
 			if cur[ri].Trace == nil {
 				continue
 			}
-			for again := true; again; {
+			for again := true; again && !over(); {
 				again = false
 				var cands [][]workerlib.ExplicitRun
 				if len(cur[ri].Trace.Segs) > 0 {
